@@ -12,6 +12,7 @@ import (
 	"go/token"
 	"go/types"
 	"math/big"
+	"sort"
 	"strings"
 
 	"golang.org/x/tools/go/ssa"
@@ -26,6 +27,8 @@ type exprTr struct {
 	fi    *FuncInfo
 	depth int
 	unfolding *types.Func
+	reveal    map[*types.Func]bool // spec functions translated by their body although opaque (heap-read probing)
+	structEq  bool                 // "names" clauses: string equality is identity of the value
 }
 
 func (vc *VC) clauseTerm(fi *FuncInfo, cl *Clause, env map[string]Val, res map[string]Val, st, old *State) Term {
@@ -45,7 +48,7 @@ func (vc *VC) clauseTerm(fi *FuncInfo, cl *Clause, env map[string]Val, res map[s
 	for k, v := range res {
 		m[k] = v
 	}
-	ex := &exprTr{vc: vc, info: ce.info, env: []map[string]Val{m}, st: st, old: old, fi: fi}
+	ex := &exprTr{vc: vc, info: ce.info, env: []map[string]Val{m}, st: st, old: old, fi: fi, structEq: cl.NameOnly}
 	v := ex.tr(ce.expr)
 	return v.t
 }
@@ -326,6 +329,8 @@ func (ex *exprTr) binary(x *ast.BinaryExpr) Val {
 		switch {
 		case isInterface(ta) || isInterface(tb):
 			r = vc.dynEq(vc.asDyn(a, ta), vc.asDyn(b, tb))
+		case isString(ta) && ex.structEq:
+			r = eq(a.t, b.t) // naming clause: the name denotes this very value
 		case isString(ta):
 			r = vc.strEqTerms(a.t, b.t)
 		case isFloat(ta):
@@ -383,6 +388,16 @@ func (ex *exprTr) binary(x *ast.BinaryExpr) Val {
 			if new(big.Int).And(c1, c).Sign() == 0 {
 				return Val{t: app("mod", a.t, bigNum(c1)), typ: rt}
 			}
+		}
+	}
+	if bits, signed, ok := intInfo(ta); ok {
+		switch x.Op {
+		case token.XOR:
+			return vc.bitUF("xor", bits, a.t, b.t, ta, false)
+		case token.OR:
+			return vc.bitUF("or", bits, a.t, b.t, ta, false)
+		case token.AND:
+			return vc.bitUF("and", bits, a.t, b.t, ta, !signed)
 		}
 	}
 	vc.fail("contract: binary operator %s on %s", x.Op, ta)
@@ -499,6 +514,41 @@ func (ex *exprTr) call(x *ast.CallExpr) Val {
 		ex.unfolding = nil
 		vc.assume("definition instance of recursive spec function " + fo.Name() + " (unfold hint; true by definition, assumed well-founded)")
 		return Val{t: eq(lhs.t, rhs.t), typ: rt}
+	case "verif_callPanicked", "verif_callReturned", "verif_callResult":
+		id, ok := x.Args[0].(*ast.Ident)
+		if !ok {
+			vc.fail("contract: %s needs the name of a function-valued variable", name[6:])
+		}
+		g := vc.ghostOf(id.Name)
+		switch name {
+		case "verif_callPanicked":
+			return Val{t: and(g.at, g.panicked), typ: rt}
+		case "verif_callReturned":
+			return Val{t: and(g.at, not(g.panicked)), typ: rt}
+		}
+		if g.result.t == "" {
+			vc.fail("contract: %s has no single result", id.Name)
+		}
+		return Val{t: g.result.t, typ: rt}
+	case "verif_bytesOf":
+		return Val{t: vc.bytesOfSlice(ex.st, ex.tr(x.Args[0]).t), typ: rt}
+	case "verif_bytesOfStr":
+		return Val{t: vc.bytesOfString(ex.tr(x.Args[0]).t), typ: rt}
+	case "verif_bcat", "verif_bxor", "verif_btake":
+		vc.bytesOn()
+		return Val{t: app("bytes."+name[7:], ex.tr(x.Args[0]).t, ex.tr(x.Args[1]).t), typ: rt}
+	case "verif_blen":
+		vc.bytesOn()
+		return Val{t: app("blen", ex.tr(x.Args[0]).t), typ: rt}
+	case "verif_bat":
+		vc.bytesOn()
+		return Val{t: app("select", app("barr", ex.tr(x.Args[0]).t), ex.tr(x.Args[1]).t), typ: rt}
+	case "verif_sha1of":
+		vc.bytesOn()
+		return Val{t: app("bytes.hash", "1", ex.tr(x.Args[0]).t), typ: rt}
+	case "verif_unhex", "verif_hexok":
+		vc.bytesOn()
+		return Val{t: app("bytes."+name[6:], ex.tr(x.Args[0]).t), typ: rt}
 	case "verif_sameArray":
 		a, b := ex.tr(x.Args[0]), ex.tr(x.Args[1])
 		return Val{t: eq(slRef(a.t), slRef(b.t)), typ: rt}
@@ -603,13 +653,23 @@ func (ex *exprTr) specCall(fo *types.Func, x *ast.CallExpr, rt types.Type) Val {
 	if !strings.HasSuffix(vc.P.fset.Position(decl.Pos()).Filename, "zz_verif_prelude.go") {
 		vc.fail("contract: %s is not a spec function", fo.Name())
 	}
-	if decl.Body == nil || vc.isOpaqueHere(fo) {
-		// uninterpreted
+	if !ex.reveal[fo] && (decl.Body == nil || vc.isOpaqueHere(fo) || (isRecursiveSpec(decl) && ex.unfolding != fo)) {
+		// uninterpreted: bodiless, `spec opaque` and not revealed here, or recursive (the definition of a
+		// recursive spec function is available only through explicit `unfold(f(args))` hints, which
+		// instantiate the body once; this keeps the solver from unfolding without bound).
+		// The heaps the body reads are arguments too, so a change of memory changes the value.
 		var sorts []string
 		var ts []Term
 		for _, a := range args {
 			sorts = append(sorts, vc.S.sortOf(a.typ))
 			ts = append(ts, vc.asTerm(a))
+		}
+		if decl.Body != nil {
+			for _, hn := range ex.specHeapReads(fo, decl, info, args, rt) {
+				srt := vc.heapSort[hn]
+				sorts = append(sorts, srt)
+				ts = append(ts, vc.heapGet(ex.st, hn, srt))
+			}
 		}
 		f := vc.declareFun(sym("spec."+fo.Name()), sorts, vc.S.sortOf(rt))
 		if len(ts) == 0 {
@@ -617,19 +677,6 @@ func (ex *exprTr) specCall(fo *types.Func, x *ast.CallExpr, rt types.Type) Val {
 		}
 		r := app(f, ts...)
 		return Val{t: r, typ: rt}
-	}
-	if isRecursiveSpec(decl) && ex.unfolding != fo {
-		// recursive spec function: opaque (an uninterpreted function). Its definition is available
-		// only through explicit `unfold(f(args))` hints, which instantiate the body once; this keeps
-		// the solver from unfolding without bound.
-		var sorts []string
-		var ts []Term
-		for _, a := range args {
-			sorts = append(sorts, vc.S.sortOf(a.typ))
-			ts = append(ts, vc.asTerm(a))
-		}
-		f := vc.declareFun(sym("spec."+fo.Name()), sorts, vc.S.sortOf(rt))
-		return Val{t: app(f, ts...), typ: rt}
 	}
 	unfoldingThis := ex.unfolding == fo
 	if ex.depth > 12 {
@@ -772,3 +819,60 @@ func (P *Program) findFuncDecl(fo *types.Func) (*ast.FuncDecl, *types.Info) {
 }
 
 var _ = ssa.NaiveForm
+
+// specHeapReads: the heaps (by name, sorted) that the body of a spec function reads, found by
+// translating the body once on the side (the events of that translation are discarded).
+func (ex *exprTr) specHeapReads(fo *types.Func, decl *ast.FuncDecl, info *types.Info, args []Val, rt types.Type) []string {
+	vc := ex.vc
+	if vc.specHeaps == nil {
+		vc.specHeaps = map[*types.Func][]string{}
+		vc.specProbing = map[*types.Func]bool{}
+	}
+	if hs, ok := vc.specHeaps[fo]; ok {
+		return hs
+	}
+	if vc.specProbing[fo] {
+		return nil
+	}
+	vc.specProbing[fo] = true
+	nEv := len(vc.events)
+	saveProbe, saveND := vc.heapProbe, vc.noDefine
+	vc.heapProbe = map[string]bool{}
+	vc.noDefine = true
+	// only the body is translated here: heap reads of the argument expressions belong to the caller
+	scope := map[string]Val{}
+	i := 0
+	if decl.Recv != nil {
+		for _, f := range decl.Recv.List {
+			for _, n := range f.Names {
+				scope[n.Name] = args[i]
+			}
+			i++
+		}
+	}
+	for _, f := range decl.Type.Params.List {
+		for _, n := range f.Names {
+			scope[n.Name] = args[i]
+			i++
+		}
+	}
+	sub := &exprTr{vc: vc, info: info, env: []map[string]Val{scope}, st: ex.st, old: ex.old, fi: ex.fi, depth: ex.depth + 1}
+	sub.stmts(decl.Body.List, rt)
+	var hs []string
+	for h := range vc.heapProbe {
+		if h != "alloc" {
+			hs = append(hs, h)
+		}
+	}
+	sort.Strings(hs)
+	for h := range vc.heapProbe {
+		if saveProbe != nil {
+			saveProbe[h] = true
+		}
+	}
+	vc.heapProbe, vc.noDefine = saveProbe, saveND
+	vc.events = vc.events[:nEv]
+	delete(vc.specProbing, fo)
+	vc.specHeaps[fo] = hs
+	return hs
+}
